@@ -28,7 +28,17 @@ type ParserData struct {
 		code    []ByteCode
 		index   int
 		textPos int
+		loop    parserLoopState
 	}
+}
+
+// parserLoopState 循环相关的解析状态。break/continue 记录的是当前指令缓冲区内的下标，
+// 因此切换指令缓冲区(函数体、computed)时需要一并保存和清空
+type parserLoopState struct {
+	loopLayer     int
+	loopInfoLen   int
+	breakStack    []IntType
+	continueStack []IntType
 }
 
 type BufferSpan struct {
@@ -388,9 +398,16 @@ func (p *ParserData) CodePush(textPos int) {
 		code    []ByteCode
 		index   int
 		textPos int
-	}{code: p.code, index: p.codeIndex, textPos: textPos})
+		loop    parserLoopState
+	}{code: p.code, index: p.codeIndex, textPos: textPos, loop: parserLoopState{
+		loopLayer: p.loopLayer, loopInfoLen: len(p.loopInfo), breakStack: p.breakStack, continueStack: p.continueStack,
+	}})
 	p.code = make([]ByteCode, 256)
 	p.codeIndex = 0
+	// 新的指令缓冲区不在任何循环之内
+	p.loopLayer = 0
+	p.breakStack = nil
+	p.continueStack = nil
 }
 
 func (p *ParserData) CodePop() ([]ByteCode, int, int) {
@@ -401,5 +418,9 @@ func (p *ParserData) CodePop() ([]ByteCode, int, int) {
 	p.codeStack = p.codeStack[:last]
 	p.code = info.code
 	p.codeIndex = info.index
+	p.loopLayer = info.loop.loopLayer
+	p.loopInfo = p.loopInfo[:info.loop.loopInfoLen]
+	p.breakStack = info.loop.breakStack
+	p.continueStack = info.loop.continueStack
 	return lastCode, lastIndex, info.textPos
 }
